@@ -129,6 +129,12 @@ class Engine(_Base, ExprMixin, CallMixin, StmtMixin):
         self.cur_contract = c
         res = {'target': c.target, 'status': 'ok', 'error': None, 'paths': 0, 'covers': 0}
         try:
+            if c.target.startswith('lemma:'):
+                self.verify_lemma(c)
+                res['obligations'] = self.obligations
+                res['seconds'] = time.time() - t0
+                res['covers'] = 1
+                return res
             info, outer = self.find_func(c.func_key)
             if info is None:
                 raise Unsupported('function %s not found in the source tree' % c.func_key)
@@ -154,6 +160,25 @@ class Engine(_Base, ExprMixin, CallMixin, StmtMixin):
         res['covers'] = self.covers
         res['seconds'] = time.time() - t0
         return res
+
+    def verify_lemma(self, c):
+        """A lemma over spec functions / contracts: forall params. requires => ensures (no code involved)."""
+        from .exec_call import _ModuleScope
+        info = _ModuleScope(self.prog.module('specs.rfc7252'))
+        info.node = None
+        self.cur_info = info
+        st = State()
+        st.cur = st.new_frame(None, info)
+        env = {n: self.fresh_val(st, ty, n) for n, ty in c.params.items()}
+        st.frames[st.cur].update(env)
+        for r in c.requires:
+            st.assume(self.eval_clause(st, r, env, info))
+        if not feasible(st.pc):
+            raise Unsupported('hypotheses of %s are unsatisfiable' % c.target)
+        self.entry_state = st.copy()
+        self.entry_env = env
+        for nm, cl in c.ensures.items():
+            self.check(st, self.eval_clause(st, cl, env, info, old_st=self.entry_state), '%s/%s' % (c.target, nm), note=str(cl))
 
     def entry_state_for(self, c, info):
         st = State()
